@@ -198,9 +198,14 @@ def _extract_tables(repo):
     return writes, reads
 
 
-def translate(repo, outdir):
+def pin_check(repo):
+    """normalised-source pin of the transcribed functions (the key tables are regenerated independently)"""
     from translate import fingerprint
 
+    fingerprint.check(repo, ANCHORS, "C51")
+
+
+def translate(repo, outdir):
     writes, reads = _extract_tables(repo)
     path = os.path.join(outdir, "C51_keys.v")
     with open(path, "w") as f:
@@ -220,7 +225,6 @@ def translate(repo, outdir):
                 "    (forall k, mem k (rkeys gen_reads) = false -> getattr s' k = class_default k).\n"
                 "Proof. intros s Hs. exact (state_roundtrip_tables _ _ s gen_tables_ok Hs). Qed.\n"
                 "Print Assumptions gen_state_roundtrip.\n")
-    fingerprint.check(repo, ANCHORS, "C51")
     return [path]
 
 
